@@ -66,6 +66,36 @@ pub fn run(max_c: u64, thorough: bool) -> CapResult {
             }
         }
     }
+    // 1b. an overfull bin: in a table shorter than 64 bins it makes the table grow (try_presize(2n));
+    // from 64 bins on the bin becomes a tree and the table keeps its length
+    for c in [1u64, 5, 10, 11, 21, 22, 30, 42, 43, 85, 86, 170] {
+        let m = M::with_capacity_and_hasher(c as usize, S::default());
+        let n = table_len(&m);
+        if n == 0 {
+            continue;
+        }
+        let g = m.guard();
+        // keys agreeing in all the bits a table of up to 2^20 bins looks at
+        for j in 0..9u32 {
+            m.insert(Key::new(3 + (j << 20), 0), Val::new(j as i64), &g);
+        }
+        let n2 = table_len(&m);
+        let d = crate::dump::canon(&m.verif_dump(&g));
+        let trees = d.table.as_ref().map(|t| t.bins.iter().filter(|b| matches!(b, crate::dump::CBin::Tree { .. })).count()).unwrap_or(0);
+        r.evaluations += 1;
+        if n >= 64 && (n2 != n || trees != 1) {
+            r.failures.push(format!(
+                "with_capacity({}) gave {} bins; 9 keys colliding in one bin left a table of {} bins with {} tree bin(s) (expected {} bins, 1 tree bin)",
+                c, n, n2, trees, n
+            ));
+        }
+        if n < 64 && n2 <= n {
+            r.failures.push(format!(
+                "with_capacity({}) gave {} bins (< 64); 9 keys colliding in one bin did not make the table grow ({} bins)",
+                c, n, n2
+            ));
+        }
+    }
     // 2. reserve(a) on a map holding m0 entries: a further entries fit
     for m0 in [0u64, 1, 5, 11, 12, 13, 47, 48, 100] {
         for a in [0u64, 1, 2, 7, 16, 33, 100, 385, 1000] {
